@@ -14,7 +14,7 @@ def run(ctx):
                        "ASan red zones detect writes past capacity+1 and reads past the input"]
     res.min_nontrivial = 40
     with core.Build() as b:
-        drv = b.unit("codec", ["codec.c"], objs=["base32", "base64", "base64u", "base128"], libs=())
+        drv = b.unit("codec", ["codec.c"], objs=["base32", "base64", "base64u", "base128", "encoding"], libs=())
         sh = ctx.jobs
         maxlen = ctx.pick(700, 4096)
         if ctx.replay:
